@@ -66,6 +66,7 @@ PROPS = {
     "C14": node("C14", required=["send_ok", "same_ms_submission"]),
     "C15": node("C15", required=["send_ok", "status_report_judged"]),
     "C19": node("C19", variants=["prophet"], required=["send_ok", "prophet_emission_judged", "prophet_vector_imported", "prophet_ageing_tick", "prophet_forwarding_judged"]),
+    "C20": node("C20", variants=["dtlsr"], required=["send_ok", "dtlsr_unicast_judged", "dtlsr_linkstate_accepted", "dtlsr_linkstate_stale_or_equal", "dtlsr_recompute_tick"]),
     "C18": node("C18", variants=["spray", "binary_spray"], required=["send_ok", "spray_copy_given", "binary_spray_transmission_judged"]),
 }
 
@@ -102,6 +103,11 @@ MANIFEST_TEXT = {
                     "and every algorithm-chosen transmission of a data bundle is checked against the peer's last advertised predictability and a reference value resynchronised at each emission. "
                     "The 'never crashes under concurrent events' clause is only covered as far as a crash shows up as a dying worker process (no race-detector windows yet).",
             "design_ref": "DESIGN.md §4 C19, App. A.5", "note": NODE_NOTE, "technique": DST},
+    "C20": {"text": "Seeded link-state histories (up to 8 other nodes, directed links live or lost at past instants, reordered / duplicated / stale / equal-timestamp updates through scripted peers), "
+                    "own neighbours appearing and disappearing on the fake clock, recompute/broadcast/purge ticks; the table is observed behaviourally (which scripted peer is handed a unicast probe) "
+                    "and compared with an independent Floyd-Warshall over {own links} + {newest data per node}: routed iff reachable, next hop on some least-cost path at a recompute instant since the "
+                    "last change, a single next hop; link-state bundles never twice to a peer.",
+            "design_ref": "DESIGN.md §4 C20, App. A.6", "note": NODE_NOTE, "technique": DST},
     "C18": {"text": "Seeded histories (budgets 1..8, 0..6 peers, failures, retries, interleaved failure reports at the spray write-back hooks); oracles on the wire: vanilla spray never exceeds "
                     "L-1 successful transmissions and hands out all copies once faults stop; binary spray announces exactly half (rounded down) of what the sequence of outcomes says it holds, never "
                     "transmits a single copy to a non-destination, and a failure restores the count.",
